@@ -9,9 +9,9 @@ static rc::Gen<Op> c01_op()
 	auto path = rng(0, 8);
 	auto val = rng(0, 15);
 	return rc::gen::weightedOneOf<Op>({
-	    {6, op_gen(ADD, conn, path, rc::gen::weightedOneOf<int>({{5, val}, {1, rc::gen::just(-1)}}), rng(0, 2), zero(), idmode(), rc::gen::arbitrary<bool>())},
-	    {3, op_gen(REMOVE, conn, path, zero(), zero(), zero(), idmode(), rc::gen::arbitrary<bool>())},
-	    {5, op_gen(CHANGE, conn, path, val, zero(), zero(), idmode(), rc::gen::arbitrary<bool>())},
+	    {6, op_gen(ADD, conn, path, rc::gen::weightedOneOf<int>({{5, val}, {1, rc::gen::just(-1)}}), rc::gen::weightedElement<int>({{5, 0}, {1, 1}, {2, 2}}), zero(), idmode(), rc::gen::arbitrary<bool>())},
+	    {3, op_gen(REMOVE, conn, path, zero(), rc::gen::element<int>(0, 2), zero(), idmode(), rc::gen::arbitrary<bool>())},
+	    {5, op_gen(CHANGE, conn, path, val, rc::gen::element<int>(0, 2), zero(), idmode(), rc::gen::arbitrary<bool>())},
 	    {5, op_gen(FETCH, conn, rng(0, 4), rng(0, 10), zero(), zero(), idmode(), rc::gen::arbitrary<bool>())},
 	    {2, op_gen(UNFETCH, conn, rng(0, 4), zero(), zero(), zero(), idmode(), rc::gen::arbitrary<bool>())},
 	    {1, op_gen(CONNECT, zero(), rng(0, 3), rng(0, 4), zero(), zero(), zero(), nojoin())},
